@@ -21,7 +21,7 @@ fn trait_sig(m: &Method) -> String {
     for p in &m.params {
         ps.push(format!("{}: {}", if p.pk == PK::Wild { "_".to_string() } else { p.name.clone() }, p.vt.ty("V")));
     }
-    format!("{}fn {}({}) -> String", if m.is_async { "async " } else { "" }, m.name, ps.join(", "))
+    format!("{}fn {}({}){}", if m.is_async { "async " } else { "" }, m.name, ps.join(", "), if m.ret_unit { "" } else { " -> String" })
 }
 
 fn impl_fn(m: &Method, target: usize, deps: &[usize], generic_form: bool, vis: &str) -> String {
@@ -41,7 +41,7 @@ fn impl_fn(m: &Method, target: usize, deps: &[usize], generic_form: bool, vis: &
     for p in &m.params {
         ps.push(format!("{}: {}", p.name, p.vt.ty("V")));
     }
-    let mut s = format!("{vis}{}fn {}{g}({}) -> String {{\n", if m.is_async { "async " } else { "" }, m.name, ps.join(", "));
+    let mut s = format!("{vis}{}fn {}{g}({}){} {{\n", if m.is_async { "async " } else { "" }, m.name, ps.join(", "), if m.ret_unit { "" } else { " -> String" });
     s.push_str("        let __id = rt::addr(deps);\n");
     let mut parts = vec![];
     for (i, p) in m.params.iter().enumerate() {
@@ -64,7 +64,7 @@ fn impl_fn(m: &Method, target: usize, deps: &[usize], generic_form: bool, vis: &
         }
     }
     let args = if parts.is_empty() { "String::new()".to_string() } else { format!("[{}].join(\",\")", parts.join(", ")) };
-    s.push_str(&format!("        let __r = format!(\"X{target}.{}|{{}}|{{}}|{{}}\", __id, {args}, {sum});\n        rt::trace(__r.clone());\n        __r\n    }}\n", m.tag));
+    s.push_str(&format!("        let __r = format!(\"X{target}.{}|{{}}|{{}}|{{}}\", __id, {args}, {sum});\n        rt::trace(__r.clone());\n        {}\n    }}\n", m.tag, if m.ret_unit { "" } else { "__r" }));
     s
 }
 
@@ -88,7 +88,7 @@ pub fn gen_case(t: &mut Tape) -> Case {
                     p.vt = VT::I32;
                 }
             }
-            Method { name: names[i].clone(), tag: format!("M{i}"), is_async: any_async && t.chance(2, 3), params, has_gen: false, uses_u: false, typed_receiver: false }
+            Method { name: names[i].clone(), tag: format!("M{i}"), is_async: any_async && t.chance(2, 3), params, has_gen: false, uses_u: false, typed_receiver: false, ret_unit: t.chance(1, 5) }
         };
         methods.push(m);
     }
@@ -99,6 +99,14 @@ pub fn gen_case(t: &mut Tape) -> Case {
     let at = if use_async_trait { "#[::async_trait::async_trait]\n" } else { "" };
     let trait_attr = if dynamic { "TrImpl, delegate_by = ref".to_string() } else { "TrImpl, delegate_by = DelegateTr".to_string() };
     let trait_attr = if t.chance(1, 5) { format!("pub {trait_attr}") } else { trait_attr };
+    // options that must not influence the delegation
+    let mut trait_attr = trait_attr;
+    if any_async && !use_async_trait && t.chance(1, 4) {
+        trait_attr.push_str(", ?Send");
+    }
+    if t.chance(1, 4) {
+        trait_attr.push_str(*t.pick(&[", unimock = false", ", mockall = false", ", mock_api = TrMock"]));
+    }
     let mut src = String::from("#![allow(warnings)]\nuse crate::rt;\n#[derive(Debug, Clone, PartialEq)] pub struct N(pub i32);\n#[derive(Debug, Clone, PartialEq)] pub struct S { pub a: i32 }\n");
     for d in 0..3 {
         src.push_str(&format!("#[::entrait::entrait(pub Dep{d})]\nfn dep{d}(_deps: &impl Sized) -> u32 {{ {} }}\n", d + 1));
